@@ -13,8 +13,8 @@ pub const CHECKS: Checks = Checks { fixed_point: true, ..Checks::NONE };
 pub fn run(rep: &Report) -> u64 {
     rep.set_rule("C07: every input of the structured spaces of C08, C09, C10, C12, C14, C15, C18 (all types, valid and invalid, all encodings within the deviation bound) plus dedicated non-canonical families (bignum-tagged integers in every integer position, indefinite lengths everywhere, 4-element recipients with an empty list, reordered and non-minimal key_ops, floats of every width incl. NaN payloads and -0.0, undefined where nil is accepted, chunked protected bstr); for each accepted input: encode succeeds, output is definite-length CBOR, decodes to an equal value (Debug-equal incl. retained protected bytes, NaN-tolerant), re-encodes to the same bytes, also through the tagged forms; non-trivial = accepted inputs whose re-encoding differs from the input; distinct by bytes");
     let scale = match rep.tier {
-        Tier::Quick => Scale::Small,
-        Tier::Thorough => Scale::Quick,
+        Tier::Quick => Scale::Quick,
+        Tier::Thorough => Scale::Thorough,
     };
     let ex = Ex { rep, pid: "C07", checks: CHECKS, scale };
     c08::explore(&ex);
